@@ -28,6 +28,17 @@ func TestRegress(t *testing.T) { harness.RunRegress(t) }
 
 const kfFC17 = "fc17-tcp-truncated-reply-parsed"
 
+// kfFC17RTU: an RTU Read Server ID reply cut short by the end of the stream whose remaining bytes happen to be CRC-consistent
+const kfFC17RTU = "fc17-rtu-truncated-reply-crc-consistent"
+
+func rtuCRCOK(b []byte) bool {
+	if len(b) < 4 {
+		return false
+	}
+	c := spec.RefCRC16(b[:len(b)-2])
+	return b[len(b)-2] == byte(c) && b[len(b)-1] == byte(c>>8)
+}
+
 // Fault kinds.
 var faults = []string{"stall", "eof", "eof-with-bytes", "ioerr", "ioerr-with-bytes", "ioerr-timeout-typed", "oversize", "oversize-frame", "write", "cancel-before", "cancel-in-read", "deadline-before", "deadline-in-stall", "not-connected", "connect-failed", "nil-request"}
 
@@ -234,6 +245,19 @@ func judge(c faultCase, p prep, o cli.Outcome) harness.Result {
 		if c.Kind == cli.TCP && c.Req.FC == 17 && c.ExcCode == 0 && (c.Fault == "eof" || c.Fault == "eof-with-bytes") && c.Prefix >= 11 && harness.OpenFinding(kfFC17) {
 			// listed finding: exactly this call site / fault; any other success is still a violation
 			return harness.Result{Excluded: kfFC17, Labels: append(labels, "known:"+kfFC17)}
+		}
+		if cli.FramingOf(c.Kind) == spec.RTU && c.Req.FC == 17 && c.ExcCode == 0 && harness.OpenFinding(kfFC17RTU) {
+			// listed finding: the bytes the client got are a proper prefix of the reply that is itself CRC-consistent, and the FC17 layout
+			// has no length redundancy that could expose the truncation; any other success is still a violation
+			if got := o.Reads; len(got) > 0 {
+				var all []byte
+				for _, r := range got {
+					all = append(all, r.Data...)
+				}
+				if len(all) < len(p.reply) && bytes.Equal(all, p.reply[:len(all)]) && rtuCRCOK(all) && bytes.Equal(respBytes(o), all) {
+					return harness.Result{Excluded: kfFC17RTU, Labels: append(labels, "known:"+kfFC17RTU)}
+				}
+			}
 		}
 		return harness.Fail(desc+"request call reported success (%T %x)", o.Resp, respBytes(o))
 	}
@@ -443,6 +467,27 @@ func TestFindings(t *testing.T) {
 		var ce *modbus.ClientError
 		if o.Err != nil && !errors.As(o.Err, &ce) {
 			return true, fmt.Sprintf("stall after %d of %d reply bytes is reported as %q instead of a *ClientError timeout", E, L, o.Err)
+		}
+		return false, ""
+	})
+	harness.Probe(t, kfFC17RTU, func(fd harness.Finding) (bool, string) {
+		// search the device seeds for a reply whose truncation by one byte is CRC-consistent (about 1 in 256)
+		for seed := uint64(0); seed < 20000; seed++ {
+			c := faultCase{Kind: cli.RTUNet, Req: spec.Req{FC: 17, Unit: 1}, DevSeed: seed, Fault: "eof-with-bytes"}
+			pr, err := prepare(c)
+			if err != nil {
+				return false, ""
+			}
+			if !rtuCRCOK(pr.reply[:len(pr.reply)-1]) {
+				continue
+			}
+			c.Prefix = len(pr.reply) - 1
+			pr, _ = prepare(c)
+			o := cli.Run(pr.sc)
+			if o.Err == nil {
+				return true, fmt.Sprintf("device seed %d: reply %x truncated to %d bytes by EOF was returned as %x", seed, pr.reply, c.Prefix, respBytes(o))
+			}
+			return false, ""
 		}
 		return false, ""
 	})
